@@ -549,3 +549,58 @@ func Load(site string, cfg *packages.Config, patterns ...string) ([]*packages.Pa
 	}
 	return Pkgs(site)(packages.Load(&cp, patterns...))
 }
+
+// ---------------------------------------------------------------- goroutines
+//
+// gleece's own packages start no goroutines today; if a change introduces a
+// fan-out ("go f()" ... "wg.Wait()"), the order in which those goroutines run
+// is scheduling the simulator must own. The instrumenter rewrites
+//
+//	go f(x)      ->  verifsim.Go("site", func() { f(x) })
+//	wg.Wait()    ->  verifsim.Join("site"); wg.Wait()
+//
+// Go does not start anything: it queues the closure. Join runs everything
+// queued so far, one closure at a time, in a seeded permutation of the queue
+// (closures queued while it runs are taken in the next round). Goroutines that
+// talk to each other through channels cannot be serialised like this; the
+// instrumenter keeps reporting those as warnings.
+var pending []func()
+
+func Go(site string, f func()) {
+	mu.Lock()
+	pending = append(pending, f)
+	mu.Unlock()
+}
+
+func Join(site string) {
+	for {
+		mu.Lock()
+		batch := pending
+		pending = nil
+		mu.Unlock()
+		if len(batch) == 0 {
+			return
+		}
+		keys := make([]string, len(batch))
+		for i := range batch {
+			keys[i] = fmt.Sprintf("g%04d", i)
+		}
+		for _, ix := range order(site, keys) {
+			batch[ix]()
+		}
+	}
+}
+
+// JoinVal runs the queued goroutine bodies (Join) and then calls the original
+// Wait method; it works for both "wg.Wait()" (no result) and "err := g.Wait()".
+func JoinVal[F func() | func() error](site string, wait F) error {
+	Join(site)
+	switch w := any(wait).(type) {
+	case func():
+		w()
+		return nil
+	case func() error:
+		return w()
+	}
+	return nil
+}
